@@ -622,6 +622,36 @@ def t_a2b(ctx: Ctx, rule: str) -> None:
                     for i, s_ in view.stmts())
         if not alias and not moved:
             lost = view
+        elif moved and not alias:
+            # what is moved is the tail the first step added: the slice start must be the number of root results the temporary node was
+            # seeded with, i.e. len(root.results) taken while the root holds as many results as at the copy (reservation not counted)
+            stmts_ = list(view.stmts())
+            mv = next((i, s_) for i, s_ in stmts_ if i > a1 and f"{pre}.results" in ast.unparse(s_) and f"{root}.results" in ast.unparse(s_)
+                      and (isinstance(s_, ast.AugAssign) or (isinstance(s_, ast.Expr) and isinstance(s_.value, ast.Call))))
+            sl = [x for x in ast.walk(mv[1]) if isinstance(x, ast.Subscript) and ast.unparse(x.value) == f"{pre}.results" and isinstance(x.slice, ast.Slice)]
+            good = False
+            if len(sl) == 1 and sl[0].slice.lower is not None and sl[0].slice.upper is None:
+                start = sl[0].slice.lower
+                at = mv[0]
+                if isinstance(start, ast.Name):
+                    d_ = [(i, s_) for i, s_ in stmts_ if isinstance(s_, ast.Assign) and ast.unparse(s_.targets[0]) == start.id]
+                    if len(d_) == 1:
+                        at, start = d_[0][0], d_[0][1].value
+                copy_at = max([i for i, s_ in stmts_ for tgt, val in stores_attr(s_, "results") if ast.unparse(tgt.value) == pre and i < a1], default=None)
+                if ast.unparse(start) == f"len({root}.results)" and copy_at is not None:
+                    bal = 0
+                    for i, s_ in stmts_:
+                        if copy_at < i < at:
+                            if isinstance(s_, ast.AugAssign) and ast.unparse(s_.target) == f"{root}.results":
+                                bal += 1
+                            for c_ in calls_in(s_):
+                                if call_name(c_) in ("append", "extend", "insert") and ast.unparse(c_.func.value) == f"{root}.results":
+                                    bal += 1
+                                if call_name(c_) in ("remove", "pop") and ast.unparse(c_.func.value) == f"{root}.results":
+                                    bal -= 1
+                    good = bal == 0
+            if not good:
+                lost = view
     ctx.record(rule + "f", "PROV", TTN, "a failed first creation step leaves its result on the object root's results (the try is counted)", lost is None and n_fail >= 1,
                {"paths_returning_after_the_first_step": n_fail, **({"path": lost.path.describe()[-10:]} if lost else {})},
                "" if lost is None and n_fail >= 1 else "when the configuration step of an object creation fails nothing is recorded on the object root: the try is never counted — one worker never retries "
